@@ -13,6 +13,7 @@ ALLOWED = {
     "event_insert_query": {"DBStorage.add_event"},          # reads of the prepared INSERT statement
     "writer-add-task": {"LMDBStorage.add_event"},           # writer_queue.put(("add", ...))
     "index-write": {"WriterThread.run", "Index.clear", "Index.bulk_update", "IdIndex.write", "Index.write"},   # <index>.write(event, txn)
+    "validate-event-wiring": {"BaseStorage.__init__"},      # self.validate_event = get_validator(...)
 }
 
 
@@ -34,9 +35,21 @@ def scan(root):
             self.stack.pop()
 
         def visit_FunctionDef(self, node):
+            if node.name == "validate_event":
+                # the add_event units model `self.validate_event(event, Config)` as the pipeline built by get_validator: a method of
+                # that name would be something else
+                sites.append(("validate-event-wiring", self.path, node.lineno, _qualname(self.stack + [node.name]) + " (defined as a method)"))
             self.stack.append(node.name)
             self.generic_visit(node)
             self.stack.pop()
+
+        def visit_Assign(self, node):
+            for t in node.targets:
+                if isinstance(t, ast.Attribute) and t.attr == "validate_event":
+                    v = node.value
+                    ok = isinstance(v, ast.Call) and isinstance(v.func, ast.Name) and v.func.id == "get_validator"
+                    sites.append(("validate-event-wiring", self.path, node.lineno, _qualname(self.stack) + ("" if ok else " (not get_validator(...))")))
+            self.generic_visit(node)
 
         visit_AsyncFunctionDef = visit_FunctionDef
 
@@ -78,17 +91,20 @@ def census_check(prop):
         t0 = time.time()
         root = os.environ.get("PYVC_REPO", "/repo")
         sites, nfiles = scan(root)
-        bad = [s for s in sites if s[3].split(" ")[0] not in ALLOWED[s[0]] or "(raw INSERT)" in s[3]]
+        bad = [s for s in sites if s[3].split(" ")[0] not in ALLOWED[s[0]] or "(" in s[3]]
+        if not any(s[0] == "validate-event-wiring" for s in sites):
+            bad.append(("validate-event-wiring", "nostr_relay/storage/base.py", 0, "BaseStorage.__init__ no longer assigns self.validate_event = get_validator(...)"))
         res = {"name": "storage-entry-census", "kind": "syntactic census of the package (AST walk), not an SMT obligation",
                "status": "ok", "evaluations": nfiles, "distinct": len(sites), "known_lines": [], "exhaustive": True,
-               "rule": "every module of nostr_relay is parsed; a site is a read of event_insert_query, a raw INSERT into events, or a ('add', ...) task put on a queue",
+               "rule": "every module of nostr_relay is parsed; a site is a read of event_insert_query, a raw INSERT into events, a ('add', ...) task put on a queue, or an assignment / definition of validate_event",
                "samples": [{"kind": k, "file": p, "line": l, "function": q} for (k, p, l, q) in sites][:6], "seconds": round(time.time() - t0, 2)}
         if not sites:
             res["status"] = "crash"
             res["detail"] = "census found no storage entry site at all (scanner broken?)"
         if bad:
             res["status"] = "violation"
-            res["failures"] = [{"kind": "event-enters-the-store-outside-add_event", "example": {"what": k, "file": p, "line": l, "function": q}} for (k, p, l, q) in bad]
+            res["failures"] = [{"kind": ("validators-bypassed-or-rewired" if k == "validate-event-wiring" else "event-enters-the-store-outside-add_event"),
+                                "example": {"what": k, "file": p, "line": l, "function": q}} for (k, p, l, q) in bad]
         return res
     check.__name__ = "census_%s" % prop
     return check
